@@ -1,7 +1,8 @@
 // Witness search for C05.2 (run by ./check against a scratch copy, integration test of `feos`, --features pcsaft).
 // Shipped PC-SAFT propane/butane: flash a feed, then flash other feeds on the same tie line with the first
 // result as `initial_state`; also flashes without a guess.  Prints `WITNESS ...` whenever the phase amounts of
-// a returned equilibrium do not add up to the feed.
+// a returned equilibrium do not add up to the feed, or a returned phase is not at the specified T and p (initial
+// states taken from other temperatures / pressures).
 use feos::pcsaft::{PcSaft, PcSaftParameters};
 use feos_core::parameter::{IdentifierOption, Parameter};
 use feos_core::{PhaseEquilibrium, ReferenceSystem, SolverOptions};
@@ -37,6 +38,19 @@ fn vx_witness_flash_guess() {
         match PhaseEquilibrium::tp_flash(&mix, t, p, &(arr1(&[2.0 * z, 2.0 * (1.0 - z)]) * MOL), Some(&vle1), SolverOptions::default(), None) {
             Ok(vle2) => check(&format!("initial_state = equilibrium of feed (0.5,0.5), new feed 2x({z},{})", 1.0 - z), &(arr1(&[2.0 * z, 2.0 * (1.0 - z)]) * MOL), &vle2),
             Err(e) => println!("err 2x z={z}: {e}"),
+        }
+    }
+    // C05.5: initial states from neighbouring temperatures / pressures; the result must sit at the requested T and p
+    for (dt, dp) in [(1.0, 0.0), (-1.0, 0.0), (2.5, 0.0), (0.0, 0.05), (0.0, -0.05), (1.0, 0.03)] {
+        let (t2, p2) = ((250.0 + dt) * KELVIN, (1.2 + dp) * BAR);
+        if let Ok(vle2) = PhaseEquilibrium::tp_flash(&mix, t2, p2, &feed1, Some(&vle1), SolverOptions::default(), None) {
+            for (ph, s) in [("vapor", vle2.vapor()), ("liquid", vle2.liquid())] {
+                let dt_got = (s.temperature - t2).to_reduced().abs();
+                let dp_got = ((s.pressure(feos_core::Contributions::Total) - p2) / p2).into_value().abs();
+                if dt_got > 1e-10 || dp_got > 1e-8 {
+                    println!("WITNESS case=\"initial_state from T=250K p=1.2bar, flash requested at T={t2} p={p2}\" system=pcsaft-propane/butane {ph} phase has T={} p={}", s.temperature, s.pressure(feos_core::Contributions::Total));
+                }
+            }
         }
     }
 }
